@@ -1781,3 +1781,135 @@ def check_C09(tier, seed):
     return res.finish(gate)
 
 CHECKS['C09'] = check_C09
+
+# ---------------------------------------------------------------- C10
+def inventory():
+    """Names registered by src/builtin (functions, special forms, macros), read from the current source."""
+    names = set()
+    root = os.path.join(core.REPO, 'src', 'builtin')
+    for d, _, fs in os.walk(root):
+        for f in fs:
+            if not f.endswith('.rs'): continue
+            t = open(os.path.join(d, f)).read()
+            names.update(re.findall(r'intern_set_func!\(\s*ctx\s*,\s*\w+\s*,\s*"([^"]+)"', t))
+            for m in re.finditer(r'intern_set_func!\(\s*ctx\s*,\s*(\w+)\s*\)', t): names.add(m.group(1))
+            names.update(re.findall(r'add_special_form\(\s*"([^"]+)"', t))
+            names.update(re.findall(r'crate_add_(?:func|macro)!\(\s*ctx\s*,\s*\w+\s*,\s*"([^"]+)"', t))
+            names.update(re.findall(r'ctx\.intern\("([^"]+)"\)\s*\n?\s*\.set\(', t))
+            for m in re.finditer(r'#\[crate_fn(?:_no_eval)?\(([^)]*)\)\]\s*fn\s+(\w+)', t):
+                attrs, fn = m.group(1), m.group(2)
+                if 'add_func' in attrs or 'add_macro' in attrs:
+                    nm = re.search(r'name\s*=\s*"([^"]+)"', attrs)
+                    names.add(nm.group(1) if nm else fn)
+            for m in re.finditer(r'predicate_function!\((\w+)\)', t): names.add(m.group(1))
+            for mm in re.finditer(r'impl_all_cxr!\(([^;]*?)\);', t, flags=re.S):
+                if '$' in mm.group(1): continue
+                names.update(x.strip() for x in mm.group(1).split(',') if x.strip())
+    names.discard('$name'); names.discard('name')
+    return sorted(n for n in names if n and not n.startswith('$'))
+
+C10_KINDS = [
+    ('nil', 'nil'), ('t', 't'), ('0', '0'), ('1', '1'), ('-1', '-1'), ('imin', '-9223372036854775808'), ('imax', '9223372036854775807'),
+    ('0.0', '0.0'), ('-0.0', '-0.0'), ('1.5', '1.5'), ('inf', 'vinf'), ('nan', 'vnan'), ('str', '"s"'), ('sym', "'a"), ('kw', ':k'),
+    ('list', "'(1 2 3)"), ('dotted', "'(1 . 2)"), ('alist', "'((a . 1) (b . 2))"), ('lambda', '(lambda (p) p)'), ('func', 'car'), ('macro', 'when'),
+    ('htab', 'vh'), ('box', 'vbox'), ('selfsym', 'vs'), ('big', '4611686018427387904'),
+]
+C10_PRELUDE = "(setq vinf (expt 10.0 1000)) (setq vnan (- vinf vinf)) (setq vh (make-hash-table)) (setq vbox (host-box)) (setq vs 'vs) (setq a 1)"
+
+def check_C10(tier, seed):
+    import itertools
+    res = Result('C10', tier, seed); res.pending = []
+    gate = proof_gate('C10')
+    core.build_model(); core.build_impl(); core.build_impl(release=True)
+    rng = random.Random(seed)
+    names = inventory() + ['tick', 'host-add', 'host-box']
+    res.cov['inventory'] = len(names)
+    kinds = [k for _, k in C10_KINDS]
+    items = []
+    def add(name, args):
+        if name == 'while' and args and args[0] not in ('nil', "'()"):
+            args = ['nil'] + list(args[1:])
+        if name == 'while-let':
+            # an empty or always-true binding list never terminates, by definition of the form
+            if not args: return
+            args = ['((zz nil))'] + list(args[1:])
+        items.append(('(%s%s)' % (name, ''.join(' ' + a for a in args)), {'name': name}))
+    for nme in names:
+        add(nme, [])
+        for a in kinds: add(nme, [a])
+        for a, b in itertools.product(kinds, kinds): add(nme, [a, b])
+        k3 = tier_n(tier, 60, 1500)
+        for _ in range(k3): add(nme, [rng.choice(kinds) for _ in range(3)])
+        for _ in range(tier_n(tier, 30, 600)): add(nme, [rng.choice(kinds) for _ in range(4)])
+    # malformed special forms and the same object in several positions
+    shapes = ["(let 5 1)", "(let (5) 1)", "(let ((1 2)) 1)", "(let ((a . 2)) a)", "(let* ((a 1 2)) a)", "(dolist (x . 3) 1)", "(dolist (x '(1 . 2)) x)", "(dolist 5)", "(dotimes (i . 3))",
+              "(dotimes (i -5) i)", "(dotimes (i 1.5))", "(cond 5)", "(cond (1 . 2))", "(if)", "(if 1)", "(if . 1)", "(setq . a)", "(setq a . 1)", "(defun)", "(defun f)", "(defun f 5)", "(defun 5 ())",
+              "(defun f (&rest))", "(defun f (&optional))", "(defun f (a &rest b c))", "(lambda)", "(lambda 5)", "(funcall (lambda (&optional) 1))", "(defmacro)", "(defmacro m (x . y))",
+              "(quote)", "(quote 1 2)", "(-> )", "(->> 1 . 2)", "(if-let)", "(if-let (a))", "(if-let ((a 1 2)) a)", "(when-let 5)", "(append 'a 'a)", "(append 'a '(a))", "(append '(1 . 2) '(3))",
+              "(funcall 'car . 1)", "(car . 1)", "(+ . 1)", "(list . 1)", "(progn . 1)", "(and . 1)", "(1 2)", "((lambda (x) x))", "(nil)", "(t 1)", "(\"s\" 1)", ",a", ",@a", "`(,@5)", "`(,@'(1 . 2) 3)", "`(1 . ,@a)",
+              "(mapcar 'car 5)", "(mapcar 5 '(1))", "(sort '(2 1) 5)", "(sort 5 '<)", "(seq-reduce '+ '(1 . 2) 0)", "(nth 9223372036854775807 '(1 2))", "(nthcdr -9223372036854775808 '(1))",
+              "(last '(1 2) 9223372036854775807)", "(last '(1 2) -1)", "(format \"%d\" vnan)", "(format \"%d\" vinf)", "(format \"%d\" 1e30)".replace('1e30', '1' + '0' * 30 + '.0'), "(fround vinf)", "(ftruncate vnan)",
+              "(mod 1 0)", "(mod 1.5 0)", "(mod -9223372036854775808 -1)", "(/ -9223372036854775808 -1)", "(/ 1 0)", "(/ 0)", "(- -9223372036854775808)", "(* 3037000500 3037000500)",
+              "(+ 9223372036854775807 1)", "(1+ 9223372036854775807)", "(1- -9223372036854775808)", "(max 9223372036854775807 1.5)", "(expt 0 -1)", "(expt -8 0.5)",
+              "(setq gensym-counter 9223372036854775807) (gensym)", "(setq gensym-counter 'x) (gensym)", "(gethash 1 vbox)", "(puthash 1 2 vbox)", "(load 5)", "(load \"/nonexistent/file\")",
+              "(intern \"\")", "(make-symbol \"\")", "(eval '(1 2))", "(eval ''a)", "(macroexpand '(when))", "(macroexpand '(-> ))", "(setq x '(progn (macroexpand x))) (eval x)", "(setq x (list 'append 'x)) (eval x)",
+              "(setq l '(1 2)) (append l l)", "(setq l '(1 2)) (equal l l)", "(setq s 'q) (append s s)", "(let ((l (list 1 2))) (sort l (lambda (a b) (append l l) nil)))"]
+    for sh in shapes: items.append((sh, {'name': 'shape'}))
+    full = [(C10_PRELUDE + ' ' + t, m) for t, m in items]
+    res.cov['programs'] = len(full)
+    # debug vs model, then release vs debug
+    per = 40
+    cases = []
+    for i in range(0, len(full), per):
+        c = Case('x%d' % i)
+        for j, (t, m) in enumerate(full[i:i + per]):
+            c.ctx(j); c.eval(t)
+        cases.append(c)
+    impl_d = core.run_side(core.TLIMPL_DEBUG, cases, announce=True, timeout=300)
+    impl_r = core.run_side(core.TLIMPL_RELEASE, cases, announce=True, timeout=300)
+    model = core.run_side(core.TLMODEL, cases, timeout=300)
+    nv = 0
+    ncmp = 0
+    distinct = set()
+    for ci, c in enumerate(cases):
+        dl, rl, ml = impl_d.get(c.cid, []), impl_r.get(c.cid, []), model.get(c.cid, [])
+        for k in range(min(per, len(full) - ci * per)):
+            text = full[ci * per + k][0]
+            d = core.parse_line(dl[k]) if k < len(dl) else None
+            r = core.parse_line(rl[k]) if k < len(rl) else None
+            m = core.parse_line(ml[k]) if k < len(ml) else None
+            if d is None or r is None:
+                nv += 1
+                if nv <= 8: res.violation('abort', {'program': text, 'why': 'process ended while evaluating (abort / stack overflow / hang)', 'debug': dl[-1:] , 'release': rl[-1:]})
+                break
+            ncmp += 1
+            distinct.add((full[ci * per + k][1]['name'], d[1], d[2][:24]))
+            od, orr = core.default_observe(*d[1:]), core.default_observe(*r[1:])
+            if d[1] in ('P', 'A', 'H') or r[1] in ('P', 'A', 'H'):
+                nv += 1
+                if nv <= 8: res.violation('panic', {'program': text, 'debug': decode_line(dl[k]), 'release': decode_line(rl[k]), 'why': 'evaluation panicked or aborted instead of returning a value or an error'})
+                continue
+            if od != orr:
+                nv += 1
+                if nv <= 8: res.violation('profile-difference', {'program': text, 'debug': decode_line(dl[k]), 'release': decode_line(rl[k]), 'why': 'outcome differs between the build with and without debug assertions / overflow checks'})
+                continue
+            if m is not None and m[1] not in ('F',) and not (m[1] == 'E' and m[2] == 'unmodelled'):
+                om = core.default_observe(*m[1:])
+                if om != od:
+                    res.cov['disagreements_checked'] = res.cov.get('disagreements_checked', 0) + 1
+                    if len(res.pending) < 10:
+                        res.pending.append({'program': text, 'impl_decoded': decode_line(dl[k]), 'model_decoded': decode_line(ml[k]), 'why': 'differ', 'correspondence': 'Eval.apply_prim'})
+    res.cov['evaluations'] = ncmp
+    res.cov['distinct_nontrivial'] = len(distinct)
+    res.cov['exhaustive'] = True
+    res.cov['exhaustive_space'] = 'every registered name (%d, read from src/builtin) x all argument tuples of length 0-2 over %d kinds' % (len(names), len(kinds))
+    res.cov['rule'] = ('every built-in function, macro and special form of the source inventory applied to nil, t, integers incl. i64 extremes, floats incl. signed zero / inf / NaN, string, symbol, keyword, '
+                       'proper / dotted / association list, lambda, built-in function and macro objects, hash table, foreign boxed value, a symbol bound to itself; arity 0-2 exhaustive, 3 and 4 sampled; '
+                       '%d malformed special forms, overflow and zero-division cases and programs that pass one object in several positions; each program in a fresh context, in the debug and the release build; '
+                       'oracle: never a panic or abort, identical outcome in both profiles; correspondence: value / error class equal to the model' % len(shapes))
+    res.cov['samples'] = [full[1][0], full[500][0], full[-1][0]]
+    for d in res.pending:
+        res.violation('disagreement', d, no_input=not oracle_confirms(d))
+    return res.finish(gate)
+
+CHECKS['C10'] = check_C10
